@@ -76,7 +76,17 @@ def judge(act, cfg, problem, n0, nit0, add, tag, f_prev=None):
     """Truth of the termination report of one finished activation."""
     if act.result is None:
         if act.exc is not None:
-            add("raised_without_fault", {"tag": tag, "exception": repr(act.exc)[:300]})
+            w = {"tag": tag, "exception": repr(act.exc)[:300]}
+            # conditioning of the memory when it happened (from the last state the callback saw)
+            if act.states:
+                sn = act.states[-1]["snap"]
+                if sn["sk"].size:
+                    sy = np.abs(np.sum(sn["sk"] * sn["yk"], axis=1))
+                    if sy.size and float(np.min(sy)) > 0:
+                        w["sy_spread_in_last_state"] = float(np.max(sy) / np.min(sy))
+                        w["pairs_in_last_state"] = int(sy.size)
+                        w["n"] = int(sn["x"].size)
+            add("raised_without_fault", w)
         return None
     res = act.result
     msg = str(res.message)
